@@ -220,6 +220,6 @@ int main(int argc, char **argv) {
   std::vector<vf::Part> parts;
   parts.push_back({"c14.random", [](uint64_t, Rng &rng, CaseResult &r) { randomCase(rng, r, false); }, 10});
   parts.push_back({"c14.zeros", [](uint64_t, Rng &rng, CaseResult &r) { randomCase(rng, r, true); }, 10});
-  parts.push_back({"c14.exhaustive", [](uint64_t idx, Rng &, CaseResult &r) { exhaustiveCase(idx, r); }, 300});
+  parts.push_back({"c14.exhaustive", [](uint64_t idx, Rng &, CaseResult &r) { exhaustiveCase(idx, r); }, 20});
   return vf::runMain(argc, argv, parts);
 }
